@@ -1,5 +1,6 @@
 import json,sys
 pid=sys.argv[1]; n=sys.argv[2]
+focus=sys.argv[3] if len(sys.argv)>3 else ''
 for l in open('/verif/properties.jsonl'):
     p=json.loads(l)
     if p['id']==pid: break
@@ -21,7 +22,7 @@ The property that must hold for this code base:
   Code it lives in: {', '.join(p['anchors']['files'])}
   Mechanisms meant to make it hold: {'; '.join(m['name']+' ('+m['where']+')' for m in p['anchors']['mechanism'])}
 
-YOUR TASK: produce ONE realistic change to the repository source (the kind of regression a well-meaning developer could introduce: an optimisation, a refactor, a boundary condition, a reordered pair of statements, a changed comparison, a forgotten update, two cooperating edits that each look fine alone) that BREAKS this property while the crate still compiles and the ENTIRE existing test suite still passes. Variant number {n}: pick a different function / mechanism than the most obvious one if you are variant 2 or higher. The change must need something specific to manifest — a particular interleaving or ordering of operations, a tie or boundary value, a multi-step sequence, an unusual input, a crash or fault at a particular point — not something ordinary use would expose at once. Keep it small (typically 1-15 changed lines), in non-test source files under src/. Do not touch tests, benches, docs or Cargo files. Do not add cfg flags, env-var switches, or obviously malicious code; it must look like an honest mistake.
+YOUR TASK: produce ONE realistic change to the repository source (the kind of regression a well-meaning developer could introduce: an optimisation, a refactor, a boundary condition, a reordered pair of statements, a changed comparison, a forgotten update, two cooperating edits that each look fine alone) that BREAKS this property while the crate still compiles and the ENTIRE existing test suite still passes. Variant number {n}: pick a different function / mechanism than the most obvious one if you are variant 2 or higher.{(' For this variant, place the change in or around: '+focus+' (one of the places the property depends on); choose something there that is NOT the first idea that comes to mind.') if focus else ''} The change must need something specific to manifest — a particular interleaving or ordering of operations, a tie or boundary value, a multi-step sequence, an unusual input, a crash or fault at a particular point — not something ordinary use would expose at once. Keep it small (typically 1-15 changed lines), in non-test source files under src/. Do not touch tests, benches, docs or Cargo files. Do not add cfg flags, env-var switches, or obviously malicious code; it must look like an honest mistake.
 
 Then write a DEMONSTRATION: a new test file under {wt}/tests/ (an integration test using the crate's public API: the crate is named redis_sim, e.g. `use redis_sim::replication::...`) or, if private access is needed, a #[cfg(test)] test added in a NEW separate file/module, that FAILS with your change applied and PASSES on the unchanged code. The demonstration must exercise the real code and check the property (not just check that some line changed).
 
